@@ -6,6 +6,7 @@ package impl
 
 import (
 	"fmt"
+	"runtime"
 	"strconv"
 	"strings"
 
@@ -24,12 +25,29 @@ import (
 type budgetExceeded struct{ what string }
 type depthExceeded struct{ msg string }
 
+// MemoCount counts the combinator.Memoize calls made through this package since process start: together with the
+// (deterministic) package initialisation it determines the cache indexes a build receives, so a case that
+// depends on them can be replayed by burning indexes up to the recorded count first (BurnTo).
+var MemoCount int
+
+// BurnTo makes throw-away Memoize calls until MemoCount reaches n.
+func BurnTo(n int) {
+	dummy := parser.Empty()
+	for MemoCount < n {
+		_ = combinator.Memoize(dummy)
+		MemoCount++
+	}
+}
+
 // Options selects how a grammar is built.
 type Options struct {
-	NoMemo  bool // build every memoization point WITHOUT combinator.Memoize (differential reference of C03)
-	Interp  parsley.Interpreter
-	Bare    bool          // no wrappers, no monitor: exactly the library's parsers (for free-running concurrent use)
-	Letters map[byte]byte // optional substitution of terminal bytes (e.g. b -> '\n' to exercise line:column)
+	NoMemo bool // build every memoization point WITHOUT combinator.Memoize (differential reference of C03)
+	Interp parsley.Interpreter
+	Bare   bool // no wrappers, no monitor: exactly the library's parsers (for free-running concurrent use)
+	// BurnBeforeLastShared: number of throw-away combinator.Memoize calls made just before the LAST shared
+	// sub-parser is built, so that its cache index is far away from the indexes of the parsers built before it
+	BurnBeforeLastShared int
+	Letters              map[byte]byte // optional substitution of terminal bytes (e.g. b -> '\n' to exercise line:column)
 }
 
 // Monitor is the per-build observer state; Reset before each parse.
@@ -61,16 +79,17 @@ func (m *Monitor) Reset() {
 
 // Built is a grammar compiled to real parsers.
 type Built struct {
-	G    *gram.Grammar
-	Mon  *Monitor
-	NT   []parser.Func // N<i>: outer(Memoize(inner(body)))
-	Sh   []parser.Func
-	Root parsley.Parser
+	MemoBefore int // MemoCount when the build started
+	G          *gram.Grammar
+	Mon        *Monitor
+	NT         []parser.Func // N<i>: outer(Memoize(inner(body)))
+	Sh         []parser.Func
+	Root       parsley.Parser
 }
 
 // Build compiles g.
 func Build(g *gram.Grammar, opt Options) *Built {
-	b := &Built{G: g, Mon: &Monitor{BudgetCalls: 1 << 62, BudgetRes: 1 << 62}}
+	b := &Built{G: g, Mon: &Monitor{BudgetCalls: 1 << 62, BudgetRes: 1 << 62}, MemoBefore: MemoCount}
 	b.Mon.Reset()
 	b.NT = make([]parser.Func, len(g.NTs))
 	b.Sh = make([]parser.Func, len(g.Shared))
@@ -79,11 +98,13 @@ func Build(g *gram.Grammar, opt Options) *Built {
 		id := memoID
 		memoID++
 		if opt.Bare {
+			MemoCount++
 			return combinator.Memoize(body)
 		}
 		in := b.inner(id, body)
 		var mid parsley.Parser = in
 		if !opt.NoMemo {
+			MemoCount++
 			mid = combinator.Memoize(in)
 		}
 		return b.outer(mid)
@@ -167,6 +188,9 @@ func Build(g *gram.Grammar, opt Options) *Built {
 		b.NT[i] = memoize(nil, build(body))
 	}
 	for i, body := range g.Shared {
+		if i == len(g.Shared)-1 && opt.BurnBeforeLastShared > 0 {
+			BurnTo(MemoCount + opt.BurnBeforeLastShared)
+		}
 		if i < len(g.SharedMemo) && g.SharedMemo[i] {
 			b.Sh[i] = memoize(nil, build(body))
 		} else {
@@ -201,6 +225,14 @@ func (b *Built) wrap(e *gram.Expr, p parsley.Parser) parsley.Parser {
 		m.Calls++
 		if m.Calls > m.BudgetCalls {
 			panic(budgetExceeded{"calls"})
+		}
+		if m.Calls&2047 == 0 {
+			// memory guard: a case that blows up the heap is cut like one that exceeds the work meter
+			var ms runtime.MemStats
+			runtime.ReadMemStats(&ms)
+			if ms.HeapAlloc > 3<<30 {
+				panic(budgetExceeded{"memory"})
+			}
 		}
 		if m.Yield != nil {
 			m.Yield()
